@@ -1,0 +1,19 @@
+//go:build verif
+
+// Contracts for gvc (/verif). Comment-only: this file adds no declarations.
+
+package tk
+
+// C34 (widgets): a vertical list box hands at most `height` lines to its
+// renderer, however many lines the items have (a multi-line item that straddles
+// the bottom edge is cropped to what still fits).
+//@ func listBox.renderVertical
+//@   props C34
+//   slice bounds (firstCrop comes from getVerticalWindow) are assumed in range here, not proved
+//@   skip slice
+//@   skip index
+//@   opaque Label.Render
+//@   log Renderer.Render
+//@   loop 1 invariant len(allLines) <= height || height < 0
+//@   loop 1 invariant ncalls == 0
+//@   before Renderer.Render [no-more-lines-than-the-height] height >= 0 ==> len(allLines) <= height
